@@ -1523,14 +1523,14 @@ Lemma g_feed_sound ST : forall xs st c pos out st',
   Forall (seen k') xs /\
   exists o, k_st k' = CS_done o /\ obs_out_eqb (obs_of_outcome o) out = true.
 Proof.
-  induction xs as [|x r IH]; intros st c pos out st' H; simpl in H.
-  - destruct (k_st (g_calls st c)) eqn:E; simpl in H; try discriminate H.
-    destruct (obs_out_eqb (obs_of_outcome o) out) eqn:EO; [|discriminate H]. inversion H; subst.
+  induction xs as [|x r IH]; intros st c pos out st' H; cbn [g_feed] in H.
+  - destruct (k_st (g_calls st c)) eqn:E; simpl in H; try discriminate.
+    destruct (obs_out_eqb (obs_of_outcome o) out) eqn:EO; [|discriminate]. inversion H; subst.
     split; [exists []; reflexivity|]. cbv zeta. repeat split; auto. eauto.
-  - destruct (negb (waiting (k_st (g_calls st c)))); [discriminate H|].
-    destruct (last_sent st c) as [q|] eqn:LS; [|discriminate H].
-    destruct (request_eqb q (x_req x)) eqn:RQ; [|discriminate H].
-    destruct (gstep ST st (GL_resp c (x_resp x))) as [st1|] eqn:G; [|discriminate H].
+  - destruct (negb (waiting (k_st (g_calls st c)))); [discriminate|].
+    destruct (last_sent st c) as [q|] eqn:LS; [|discriminate].
+    destruct (request_eqb q (x_req x)) eqn:RQ; [|discriminate].
+    destruct (gstep ST st (GL_resp c (x_resp x))) as [st1|] eqn:G; [|discriminate].
     destruct (IH _ _ _ _ _ H) as [[ls2 Hrun2] [A [B [C [Dd [F O]]]]]].
     destruct (g_tick_run ST st1 c) as [ls1 Hrun1].
     destruct (gstep_resp_extends _ _ _ _ _ G) as [E1 [E2 [E3 E4]]].
@@ -1541,7 +1541,7 @@ Proof.
       * rewrite C, T3, E3. simpl. rewrite <- app_assoc. reflexivity.
       * split; [auto|]. split; [|exact O].
         constructor; [|exact F].
-        unfold last_sent in LS. destruct (k_sent (g_calls st c)) as [|[q0 om] rest] eqn:KS; [discriminate H|].
+        unfold last_sent in LS. destruct (k_sent (g_calls st c)) as [|[q0 om] rest] eqn:KS; [discriminate|].
         inversion LS; subst q0. exists q, om. split; [|exact RQ].
         apply Dd, T4, E4. rewrite KS. now left.
 Qed.
@@ -1629,15 +1629,15 @@ Qed.
 Lemma s_feed_run D ST ns : forall xs st c pos out st',
   s_feed D ST ns st c pos xs out = V_ok st' -> exists ls, srun D ST ns st ls = Some st'.
 Proof.
-  induction xs as [|x r IH]; intros st c pos out st' H; simpl in H.
-  - destruct (k_st (g_calls (s_g st) c)); simpl in H; try discriminate H.
-    destruct (obs_out_eqb _ _); [|discriminate H]. inversion H; subst. exists []; reflexivity.
-  - destruct (s_out st c) as [q|]; [|discriminate H].
-    destruct (request_eqb q (x_req x)); [|discriminate H].
-    destruct (sstep D ST ns st (SL_serve c (x_pay x))) as [st1|] eqn:E1; [|discriminate H].
-    destruct (s_inbox st1 c) as [[[rs enc] p]|]; [|discriminate H].
-    destruct (_ && _); [|discriminate H].
-    destruct (sstep D ST ns st1 (SL_recv c)) as [st2|] eqn:E2; [|discriminate H].
+  induction xs as [|x r IH]; intros st c pos out st' H; cbn [s_feed] in H.
+  - destruct (k_st (g_calls (s_g st) c)); simpl in H; try discriminate.
+    destruct (obs_out_eqb _ _); [|discriminate]. inversion H; subst. exists []; reflexivity.
+  - destruct (s_out st c) as [q|]; [|discriminate].
+    destruct (request_eqb q (x_req x)); [|discriminate].
+    destruct (sstep D ST ns st (SL_serve c (x_pay x))) as [st1|] eqn:E1; [|discriminate].
+    destruct (s_inbox st1 c) as [[[rs enc] p]|]; [|discriminate].
+    destruct (_ && _); [|discriminate].
+    destruct (sstep D ST ns st1 (SL_recv c)) as [st2|] eqn:E2; [|discriminate].
     destruct (IH _ _ _ _ _ H) as [ls3 H3]. destruct (s_tick_run D ST ns st2 c) as [ls2 H2].
     exists (SL_serve c (x_pay x) :: SL_recv c :: ls2 ++ ls3). cbn [srun]. rewrite E1, E2, srun_app, H2. exact H3.
 Qed.
@@ -1650,16 +1650,16 @@ Proof.
   - destruct (s_accept_op D ST ns st c o) as [st1| | | |] eqn:E; try (inversion H; fail).
     destruct (IH _ _ _ _ H) as [ls2 H2].
     assert (exists ls1, srun D ST ns st ls1 = Some st1) as [ls1 H1].
-    { destruct o as [nd ext a xs out|nd ext b xs out|nd e]; simpl in E.
-      - destruct (negb _); [discriminate H|].
-        destruct (sstep D ST ns st (SL_exec c nd a)) as [s1|] eqn:E1; [|discriminate H].
+    { destruct o as [nd ext a xs out|nd ext b xs out|nd e]; cbn [s_accept_op] in E.
+      - destruct (negb _); [discriminate|].
+        destruct (sstep D ST ns st (SL_exec c nd a)) as [s1|] eqn:E1; [|discriminate].
         destruct (s_feed_run _ _ _ _ _ _ _ _ _ E) as [ls Hl].
         exists (SL_exec c nd a :: ls). cbn [srun]. now rewrite E1.
-      - destruct (negb _); [discriminate H|].
-        destruct (sstep D ST ns st (SL_batch c nd b)) as [s1|] eqn:E1; [|discriminate H].
+      - destruct (negb _); [discriminate|].
+        destruct (sstep D ST ns st (SL_batch c nd b)) as [s1|] eqn:E1; [|discriminate].
         destruct (s_feed_run _ _ _ _ _ _ _ _ _ E) as [ls Hl].
         exists (SL_batch c nd b :: ls). cbn [srun]. now rewrite E1.
-      - destruct (sstep D ST ns st (SL_event nd e)) as [s1|] eqn:E1; [|discriminate H].
+      - destruct (sstep D ST ns st (SL_event nd e)) as [s1|] eqn:E1; [|discriminate].
         inversion E; subst. exists [SL_event nd e]. cbn [srun]. now rewrite E1. }
     exists (ls1 ++ ls2). rewrite srun_app, H1. exact H2.
 Qed.
